@@ -39,6 +39,28 @@ def close(a, b):
     return None
 
 
+def follow_up(res, c, ds):
+    """bias and RMS error of tmpf with respect to the baths (per stretch / per bath / all), taken twice, then tmpf itself"""
+    sec = fibre.sections_dict(c)
+    res = res.copy()
+    for k in c.keys:
+        res[k] = ds[k]
+    got = {}
+    for rep in (0, 1):
+        for per in ("stretch", "section", "all"):
+            r = res.dts.ufunc_per_section(sections=sec, label="tmpf", func=(np.mean if per != "all" else None), temp_err=True, calc_per=per)
+            flat = []
+            if isinstance(r, dict):
+                for k in sorted(r):
+                    v = r[k]
+                    flat += [np.asarray(t, dtype=float).ravel() for t in (v if isinstance(v, list) else [v])]
+            else:
+                flat = [np.asarray(r, dtype=float).ravel()]
+            got[f"temp_err[{per}]#{rep}"] = np.concatenate(flat) if flat else np.zeros(0)
+    got["tmpf afterwards"] = np.asarray(res["tmpf"].values)
+    return got
+
+
 def chunk_case(ctx, c, cx, ct, sched, workers, base=None, estimators=True):
     import dask
     desc = dict(calib.case_desc(c), chunks=[cx, ct], scheduler=sched, workers=workers)
@@ -89,6 +111,12 @@ def chunk_case(ctx, c, cx, ct, sched, workers, base=None, estimators=True):
     bad = close(outs(base, c), got)
     if bad:
         ctx.fail("dask-backed result differs from the in-memory result: " + bad, desc)
+    # derived, Monte Carlo-free outputs taken from the result (twice, then the variable itself again): the whole sequence must agree
+    with dask.config.set(**cfg), warnings.catch_warnings():
+        warnings.simplefilter("ignore")
+        bad = close(follow_up(base.copy(deep=True), c, c.ds), follow_up(out, c, d.ds))
+    if bad:
+        ctx.fail("a statistic derived from the dask-backed result differs from the in-memory one: " + bad, desc)
     ctx.case(sig=[cx, ct, sched, workers, c.double], nontrivial=cx < c.nx or ct < c.nt, sample=desc)
     ctx.count(f"calib:{sched}:{workers}")
 
@@ -145,11 +173,58 @@ def reader_case(ctx):
             ctx.count("reader:" + name)
 
 
+def shared_names_case(ctx, rng):
+    """two directories holding files with the SAME names and different content, read lazily and evaluated in ONE dask computation"""
+    import dask
+    import shutil
+    import vendors
+    from props import c11
+    from dtscalibration.io.silixa import read_silixa_files
+    variant = rng.choice(["v6-double", "v6-single", "v8-double"])
+    r = np.random.default_rng(rng.randrange(2**31))
+    n, npts = 3, rng.randint(5, 12)
+    ncol = vendors.template(vendors.SILIXA[variant][0]).ncol
+    ts = c11.stamps(rng, n)
+    x = np.round(np.cumsum(r.uniform(0.1, 1.0, npts)) - 5, 3)
+    dirs, sets = [], []
+    try:
+        for tag in ("a", "b"):
+            recs = []
+            for k in range(n):
+                tab = c11.values(r, (npts, ncol), "plain")
+                tab[:, 0] = x
+                recs.append(dict(ts=ts[k], ms=0, table=tab, acq=[30.0] * 4,
+                                 series=dict(acquisitionTime=30.0, referenceTemperature=20.0, probe1Temperature=5.0, probe2Temperature=6.0)))
+            d = c11.workdir("c13" + tag)
+            vendors.silixa_write(variant, d, recs, list(range(n)))
+            dirs.append(d)
+            sets.append(recs)
+        with warnings.catch_warnings():
+            warnings.simplefilter("ignore")
+            lazy = [read_silixa_files(directory=str(d), timezone_netcdf="UTC", file_ext="*.xml", silent=True, load_in_memory=False) for d in dirs]
+            mem = [read_silixa_files(directory=str(d), timezone_netcdf="UTC", file_ext="*.xml", silent=True, load_in_memory=True) for d in dirs]
+        case = dict(op="reader-shared-names", variant=variant, nfiles=n, npts=npts)
+        names = [k for k in ("st", "ast", "rst", "rast", "tmp") if k in mem[0]]
+        together = dask.compute(*[lazy[i][k].data for i in (0, 1) for k in names])
+        for j, (i, k) in enumerate((i, k) for i in (0, 1) for k in names):
+            if not np.array_equal(np.asarray(together[j]), np.asarray(mem[i][k].values)):
+                ctx.fail(f"silixa {variant}: `{k}` of directory {'ab'[i]} read lazily and evaluated together with a directory holding files "
+                         "of the same names differs from the in-memory read", case)
+                break
+        ctx.case(sig=["reader-shared-names", variant, npts], nontrivial=True, sample=case)
+        ctx.count("reader:shared-names")
+    finally:
+        for d in dirs:
+            shutil.rmtree(d, ignore_errors=True)
+
+
 def run(ctx):
     rng = ctx.rng
     for _ in range(100):
         model_case(ctx, rng)
     reader_case(ctx)
+    for _ in range(2 if ctx.quick else 8):
+        shared_names_case(ctx, rng)
     jobs = []
     for k in range(2 if ctx.quick else 12):
         jobs.append((k, rng.randrange(2**31)))
